@@ -637,6 +637,21 @@ class Checker:
                         res.violation(dict(dcase, src=prog["src"]), f"decode_output({form} reading of the encoding of a value) does not return the value",
                                       code=got, expected=expected)
             self.ask(req, cb)
+        # readings shorter / longer than the return width: no oracle (the property reads exactly the output
+        # qubits), correspondence with the model only (right padding; extra high characters ignored)
+        self._nshort = getattr(self, "_nshort", {})
+        self._nshort[prog["name"]] = self._nshort.get(prog["name"], 0) + 1
+        for x in sorted({rd.lstrip("0") or "0", rd[1:] or "0", "1" + rd, "01" + rd}) if self._nshort[prog["name"]] <= 6 else []:
+            try:
+                got = code_val_to_json(ret, qf.decode_output(x))
+            except Exception as e:  # noqa
+                got = "error"
+
+            def cb2(rep, got=got, x=x):
+                if rep.get("value") != got:
+                    res.disagree(dict(src=prog["src"], ret=ret, reading=x), "model and code differ on decode_output of a short/long reading",
+                                 code=got, model=rep.get("value"))
+            self.ask(dict(op="c05.decode", ret=ret, form="str", bits=x, quirks=self.quirks), cb2)
 
     def check_counts(self, qf, prog, pcase, readings, m):
         res, ret = self.res, prog["ret"]
@@ -707,7 +722,7 @@ def run(ctx: Ctx) -> Result:
     )
     max_exh = 10
     n_samples = 400 if ctx.thorough else 120
-    n_random = 1500 if ctx.thorough else 160
+    n_random = 1200 if ctx.thorough else 120
     maxbits = 14 if ctx.thorough else 10
     all_exh = True
     progs = systematic_programs()
@@ -757,7 +772,7 @@ def replay(ctx: Ctx, payload):
     prng = random.Random(0)
     if prog is None:
         maxbits = 14 if tier == "thorough" else 10
-        for i in range(1500 if tier == "thorough" else 160):
+        for i in range(1200 if tier == "thorough" else 120):
             prng = random.Random(f"C05-{payload.get('seed', 0)}-{i}")
             p = random_program(prng, i, maxbits if i % 4 else min(maxbits, 8))
             if p["src"] == src:
